@@ -1,0 +1,13 @@
+//go:build verif
+
+package verifapi
+
+import "github.com/deepteams/webp/internal/lossy"
+
+// Byte-level syntax model of property C06 (suite boolcoder, op rmfrb).
+
+// ReconTokenFrameBytes is lossy.VerifTokenFrameBytes: the bytes of the token
+// partition the real token pass and BoolWriter produce for the macroblocks.
+func ReconTokenFrameBytes(mbW, mbH int, mbs []ReconMBIn) []byte {
+	return lossy.VerifTokenFrameBytes(mbW, mbH, mbs)
+}
